@@ -18,9 +18,11 @@
 (*                                 "none" (no position), "foreign" (another *)
 (*                                 file), "range" (outside the text)        *)
 (*   [e |-> "exit", p]             phase p returned                         *)
-(*   [e |-> "raise", p, x]         phase p raised; x = "CompileError",      *)
+(*   [e |-> "raise", p, x, r]      phase p raised; x = "CompileError",      *)
 (*                                 "CompilerCrash", "AbortError",           *)
-(*                                 "InternalError", "Other"                 *)
+(*                                 "InternalError", "Other"; r: the         *)
+(*                                 exception object was reported already    *)
+(*                                 (Scanner.error reports, then raises)     *)
 (* The field n of every event is the error count after the event.           *)
 (* Legal runs: phases are entered in order, none skipped; a phase returns   *)
 (* or raises CompileError (run_pipeline reports it unless it was reported   *)
@@ -29,9 +31,10 @@
 (* counted error of class CompilerCrash, are NOT events of a legal run.     *)
 EXTENDS Integers, Sequences
 
-St0 == [pc |-> 0, in |-> FALSE, nerr |-> 0, npos |-> 0, status |-> "run", why |-> ""]
-   \* pc: phases completed; in: inside phase pc+1; npos: errors with a position inside the source
+St0 == [pc |-> 0, in |-> FALSE, nerr |-> 0, n0 |-> 0, npos |-> 0, status |-> "run", pending |-> FALSE, why |-> ""]
+   \* pc: phases completed; in: inside phase pc+1; n0: errors counted when that phase was entered; npos: errors with a position inside the source
    \* status: "run" | "raised" (CompileError left a phase) | "aborted" | "bad" (why says which rule broke)
+   \* pending: the raised CompileError still has to be reported by run_pipeline
 
 Bad(st, why) == [st EXCEPT !.status = "bad", !.why = why]
 
@@ -41,16 +44,17 @@ Apply(st, ev, kinds) ==
      IF st.status # "run" \/ st.in \/ ev.p # st.pc + 1 \/ ev.p > Len(kinds) THEN Bad(st, "phase-order")
      ELSE IF ev.n # st.nerr THEN Bad(st, "error-count")
      ELSE IF kinds[ev.p] = "codegen" /\ st.nerr > 0 THEN Bad(st, "codegen-after-errors")
-     ELSE [st EXCEPT !.in = TRUE]
+     ELSE [st EXCEPT !.in = TRUE, !.n0 = st.nerr]
   ELSE IF ev.e = "error" THEN
-     IF ~(st.in \/ st.status = "raised") THEN Bad(st, "error-outside-phase")
+     IF ~(st.in \/ (st.status = "raised" /\ st.pending)) THEN Bad(st, "error-outside-phase")
      ELSE IF ev.n # st.nerr + 1 THEN Bad(st, "error-count")
      ELSE IF ev.c # "CompileError" THEN Bad(st, "crash-reported")
      ELSE IF ev.w = "marker" THEN
-          (IF st.status = "raised" /\ st.npos >= 1 THEN [st EXCEPT !.nerr = @ + 1] ELSE Bad(st, "unpositioned-error"))
+          (IF st.status = "raised" /\ st.npos >= 1 THEN [st EXCEPT !.nerr = @ + 1, !.pending = FALSE]
+           ELSE Bad(st, "unpositioned-error"))
      ELSE IF ev.w = "none" THEN Bad(st, "unpositioned-error")
      ELSE IF ev.w # "ok" THEN Bad(st, "position-outside-source")
-     ELSE [st EXCEPT !.nerr = @ + 1, !.npos = @ + 1]
+     ELSE [st EXCEPT !.nerr = @ + 1, !.npos = @ + 1, !.pending = FALSE]
   ELSE IF ev.e = "exit" THEN
      IF st.status # "run" \/ ~st.in \/ ev.p # st.pc + 1 THEN Bad(st, "phase-order")
      ELSE IF ev.n # st.nerr THEN Bad(st, "error-count")
@@ -58,7 +62,9 @@ Apply(st, ev, kinds) ==
      ELSE [st EXCEPT !.in = FALSE, !.pc = @ + 1]
   ELSE IF ev.e = "raise" THEN
      IF st.status # "run" \/ ~st.in \/ ev.p # st.pc + 1 THEN Bad(st, "phase-order")
-     ELSE IF ev.x = "CompileError" THEN [st EXCEPT !.in = FALSE, !.status = "raised"]
+     ELSE IF ev.x = "CompileError" THEN
+          (IF ev.r /\ st.npos = 0 THEN Bad(st, "rejected-without-message")     \* "already reported", but nothing was counted
+           ELSE [st EXCEPT !.in = FALSE, !.status = "raised", !.pending = ~ev.r])
      ELSE IF ev.x = "AbortError" THEN
           (IF kinds[ev.p] = "abort" /\ st.nerr > 0 THEN [st EXCEPT !.in = FALSE, !.status = "aborted"]
            ELSE Bad(st, "abort-unexpected"))
@@ -69,7 +75,7 @@ Apply(st, ev, kinds) ==
 
 (* the two terminal situations of the property *)
 Generated(st, kinds) == st.status = "run" /\ ~st.in /\ st.pc = Len(kinds) /\ st.nerr = 0
-Rejected(st, kinds)  == /\ st.nerr > 0 /\ st.npos > 0 /\ ~st.in
+Rejected(st, kinds)  == /\ st.nerr > 0 /\ st.npos > 0 /\ ~st.in /\ ~st.pending
                         /\ \/ st.status \in {"raised", "aborted"}
                            \/ st.status = "run" /\ st.pc = Len(kinds)     \* errors during code generation
 
@@ -88,7 +94,7 @@ FinalWhy(st, fin, kinds) ==
         ELSE "")
   ELSE IF fin.cfile \/ fin.stale THEN "c-file-despite-errors"
   ELSE IF Rejected(st, kinds) THEN ""
-  ELSE IF st.nerr = 0 \/ st.npos = 0 THEN "rejected-without-message"
+  ELSE IF st.nerr = 0 \/ st.npos = 0 \/ st.pending THEN "rejected-without-message"
   ELSE "phase-order"
 
 RECURSIVE Run(_, _, _, _)
